@@ -176,7 +176,14 @@ func NewMatcher(trigger Trigger, on string) *Matcher {
 
 // Match returns true if keyPath matches the On condition.
 func (tm *Matcher) Match(keyPath string) bool {
-	pattern := strings.Replace(tm.On, "*", "[^/]+", -1)
+	// "On" is a prefix of the file path in which "*" stands for one path component: anchor the
+	// expression at the start and at a component boundary, and take everything else literally
+	// (unanchored, "AAA/1Min/TICK" also matched "XAAA/1Min/TICK" and "AA/*/*" matched "AAA/...").
+	parts := strings.Split(tm.On, "*")
+	for i := range parts {
+		parts[i] = regexp.QuoteMeta(parts[i])
+	}
+	pattern := "^" + strings.Join(parts, "[^/]+") + "(/|$)"
 	matched, _ := regexp.MatchString(pattern, keyPath)
 	return matched
 }
